@@ -76,6 +76,11 @@ K1 = ["1.00000000000000001", "4503599627370497.5", "9007199254740991.0", "0.9999
 ADJ_POW = list(range(0, 53))
 
 
+# K2: nonzero literals below the smallest subnormal double (read as 0.0 by any f64 parser), and their neighbours that are not in the class
+K2 = ["1e-400", "0.1e-400", "1e-324", "2e-324", "5e-325", "1E-999", "0.%s1" % ("0" * 400), "123456e-340", "4.9e-325", "1e-3000"]
+K2_NEIGHBOURS = ["5e-324", "1e-323", "4.9e-324", "1e-300", "0e-400", "0.0e-999", "0.%s" % ("0" * 400)]
+
+
 def exact_of_token(tok):
     """exact rational value of a JSON number literal, or the integer a string denotes under the stated grammar; None if not a number."""
     if re.fullmatch(r"-?(0|[1-9]\d*)(\.\d+)?([eE][+-]?\d+)?", tok):
@@ -124,6 +129,13 @@ def run(ctx):
             for tok, v in MAY:
                 docs.append(render(base_doc(kind), f, tok))
                 meta.append((kind, f, tok, ("may", v), "may-zone"))
+            for tok in (K2 if f in ("nonce", "value", "gas") or thorough else K2[:2]):
+                docs.append(render(base_doc(kind), f, tok))
+                meta.append((kind, f, tok, ("reject",), "float-literal-below-the-smallest-subnormal"))
+            for tok in K2_NEIGHBOURS if f in ("nonce", "gas") else ():
+                zero = exact_of_token(tok) == 0
+                docs.append(render(base_doc(kind), f, tok))
+                meta.append((kind, f, tok, ("exact", 0) if zero else ("reject",), "float-literal-near-the-smallest-subnormal"))
             for tok in (K1 if f in ("nonce", "value", "chainId") or thorough else K1[:3]):
                 docs.append(render(base_doc(kind), f, tok))
                 meta.append((kind, f, tok, ("k1",), "inexact-float-literal"))
